@@ -34,6 +34,39 @@ struct Open : public ezc3d::c3d {
 
 static FILE* out = stdout;
 
+// ---- write(2) fault injection (C15): bytes written to any descriptor other than the harness's own
+// output are accepted up to g_budget and refused with ENOSPC beyond it.
+#include <unistd.h>
+#include <sys/syscall.h>
+#include <sys/resource.h>
+#include <errno.h>
+#include <signal.h>
+static long g_budget = -1;      // -1: no fault injection
+static long g_accepted = 0;     // bytes accepted on faulted descriptors since the last reset
+static long g_refused = 0;      // number of write calls refused
+static int g_ownfd = 1;
+extern "C" ssize_t write(int fd, const void* buf, size_t n) {
+    if (g_budget < 0 || fd == g_ownfd || fd <= 2) return syscall(SYS_write, fd, buf, n);
+    long room = g_budget - g_accepted;
+    if (room <= 0) { ++g_refused; errno = ENOSPC; return -1; }
+    size_t m = n <= (size_t)room ? n : (size_t)room;
+    ssize_t r = syscall(SYS_write, fd, buf, m);
+    if (r > 0) g_accepted += r;
+    return r;
+}
+#include <sys/uio.h>
+extern "C" ssize_t writev(int fd, const struct iovec* iov, int cnt) {   // libstdc++ uses writev for large xsputn
+    if (g_budget < 0 || fd == g_ownfd || fd <= 2) return syscall(SYS_writev, fd, iov, cnt);
+    ssize_t total = 0;
+    for (int i = 0; i < cnt; ++i) {
+        ssize_t r = write(fd, iov[i].iov_base, iov[i].iov_len);
+        if (r < 0) return total > 0 ? total : -1;
+        total += r;
+        if ((size_t)r < iov[i].iov_len) break;
+    }
+    return total;
+}
+
 static std::string xhex(const std::string& s) {
     static const char* d = "0123456789abcdef";
     std::string r = "x";
@@ -201,6 +234,8 @@ int main(int argc, char** argv) {
     if (argc < 2) { std::fprintf(stderr, "usage: harness <script> [out]\n"); return 2; }
     std::ifstream in(argv[1]);
     if (argc > 2) { out = std::fopen(argv[2], "w"); if (!out) return 2; }
+    g_ownfd = fileno(out);
+    signal(SIGXFSZ, SIG_IGN);
     std::unique_ptr<Open> cur;
     std::map<std::string, Frame> vars;
     std::string line; size_t n = 0;
@@ -227,6 +262,22 @@ int main(int argc, char** argv) {
         else if (!cur) { std::fprintf(out, "R nostate\n"); continue; }
         else if (op == "save") {
             res = classify([&]() { cur->write(t[1]); });
+        }
+        else if (op == "savefault") {    // savefault <path> <k>: the OS accepts k bytes, then ENOSPC
+            g_budget = std::strtol(t[2].c_str(), 0, 10); g_accepted = 0; g_refused = 0;
+            res = classify([&]() { cur->write(t[1]); });
+            long acc = g_accepted, ref = g_refused; g_budget = -1;
+            std::fprintf(out, "R %s\n", res.c_str());
+            if (res != "ok") std::fprintf(out, "W fault\n"); else std::fprintf(out, "W %ld %s\n", acc, ref > 0 ? "fault-fired" : "no-fault");
+            std::fflush(out); continue;
+        }
+        else if (op == "savex") {        // savex <path> [fsize-limit]: a destination fault the OS itself produces
+            struct rlimit rl, old; getrlimit(RLIMIT_FSIZE, &old);
+            std::fflush(out);
+            if (t.size() > 2) { rl = old; rl.rlim_cur = (rlim_t)std::strtol(t[2].c_str(), 0, 10); setrlimit(RLIMIT_FSIZE, &rl); }
+            res = classify([&]() { cur->write(t[1]); });
+            setrlimit(RLIMIT_FSIZE, &old);
+            std::fprintf(out, "R %s\n", res.c_str()); std::fflush(out); continue;
         }
         else if (op == "param") {
             Parameter p(unx(t[2]), unx(t[3]));
